@@ -39,6 +39,8 @@ pub struct PairCfg {
     pub offerer: String, // A | B
     /// plain | slowSetRemote (the offerer's set_remote_description task is held after it started ICE)
     pub sched: String,
+    /// none | offerer | answerer: who starts a second offer/answer round on the established connection
+    pub reneg: String,
     /// short failure-detection timers (C17 loss scenarios); None = library defaults
     pub fast_timers: bool,
     /// small SCTP send buffer so that a sender can be blocked (BlockedSender scenarios)
@@ -59,6 +61,7 @@ impl Default for PairCfg {
             compat: "Standard".into(),
             offerer: "A".into(),
             sched: "plain".into(),
+            reneg: "none".into(),
             fast_timers: false,
             small_sctp_buffer: false,
         }
@@ -88,6 +91,7 @@ impl PairCfg {
         c.compat = s("compat", &c.compat);
         c.offerer = s("offerer", &c.offerer);
         c.sched = s("sched", &c.sched);
+        c.reneg = s("reneg", &c.reneg);
         c.fast_timers = b("fast_timers", c.fast_timers);
         c.small_sctp_buffer = b("small_sctp_buffer", c.small_sctp_buffer);
         c
@@ -105,7 +109,7 @@ impl PairCfg {
             media.push("video");
         }
         json!({"mode": self.mode, "media": media, "bundle": self.bundle, "mux": self.mux, "ice": self.ice,
-               "latching": self.latching, "compat": self.compat, "offerer": self.offerer, "sched": self.sched,
+               "latching": self.latching, "compat": self.compat, "offerer": self.offerer, "sched": self.sched, "reneg": self.reneg,
                "fast_timers": self.fast_timers, "small_sctp_buffer": self.small_sctp_buffer})
     }
 
@@ -629,6 +633,21 @@ impl Pair {
         let answer = self.step_answer().await?;
         self.step_set_local_answer(&answer)?;
         self.step_set_remote_answer(&answer).await?;
+        Ok(())
+    }
+
+    /// A second offer/answer round on the established connection, started by `by`.
+    pub async fn renegotiate(&self, by: &str) -> Result<(), String> {
+        let r = self.side(by).clone();
+        let o = self.side(if by == "A" { "B" } else { "A" }).clone();
+        let rpc = r.try_pc().ok_or("dropped")?;
+        let opc = o.try_pc().ok_or("dropped")?;
+        let offer = rpc.create_offer().await.map_err(|e| format!("reneg create_offer: {e}"))?;
+        rpc.set_local_description(offer.clone()).map_err(|e| format!("reneg set_local(offer): {e}"))?;
+        opc.set_remote_description(offer).await.map_err(|e| format!("reneg set_remote(offer): {e}"))?;
+        let answer = opc.create_answer().await.map_err(|e| format!("reneg create_answer: {e}"))?;
+        opc.set_local_description(answer.clone()).map_err(|e| format!("reneg set_local(answer): {e}"))?;
+        rpc.set_remote_description(answer).await.map_err(|e| format!("reneg set_remote(answer): {e}"))?;
         Ok(())
     }
 
